@@ -47,6 +47,7 @@ func c05World(t *testing.T, run *h.Run) (int64, int64) {
 		timeout,
 		mk("S3-timed-auto-restart", "auto", &w.Alpha{PodDev: []string{"restart:1", "restart:3"}}),
 		mk("S3-timed-auto-commands", "auto", &w.Alpha{Kubectl: []string{"canary-pause", "canary-unpause", "canary-validate", "canary-fail"}}),
+		mk("S3-timed-fail-overtakes", "auto", &w.Alpha{MidCmds: []string{"canary-fail"}}),
 		mk("S3-timed-manual", "manual", &w.Alpha{Kubectl: []string{"canary-validate", "canary-pause"}}),
 	}
 	var states, trans int64
@@ -62,6 +63,6 @@ func c05World(t *testing.T, run *h.Run) (int64, int64) {
 			break
 		}
 	}
-	requireAntecedents(run, "C05/active-changed")
+	requireAntecedents(run, "C05/active-changed", "C05/fail-overtook-reconcile")
 	return states, trans
 }
